@@ -29,3 +29,189 @@ def has_ctx(spec_text):
 
 
 CHECKS = {p: generic for p in GENERIC}
+
+
+# --------------------------------------------------------------------------------------------
+# fixed engines
+
+import subprocess
+from vcheck import base_env, run, toolchain, repo_fingerprint, GenericEngine
+
+
+def build_engine(root, pkg):
+    env = base_env(root)
+    rc, out, err, to = run(["cargo", "build", "--offline", "--release", "-p", pkg], cwd=os.path.join(root, "harness"), env=env, timeout=3600)
+    if rc != 0:
+        # the engine includes sources from /repo by path: a compile error there is about /repo
+        raise Inconclusive("engine %s does not build against /repo's working tree: %s" % (pkg, err[-1500:]))
+    return os.path.join(env["CARGO_TARGET_DIR"], "release", pkg)
+
+
+def run_engine(root, exe, tier, seed, extra_env=None, timeout=7200):
+    env = base_env(root)
+    env["VERIF_TIER"] = tier
+    env["VERIF_SEED"] = str(seed)
+    env.update({k: str(v) for k, v in (extra_env or {}).items()})
+    rc, out, err, to = run([exe], env=env, timeout=timeout)
+    if to:
+        raise Inconclusive("engine %s hit the wall-clock watchdog" % exe)
+    recs = []
+    for line in out.splitlines():
+        if line.startswith("{"):
+            try:
+                recs.append(json.loads(line))
+            except ValueError:
+                pass
+    if rc != 0 or not any(r.get("t") in ("S", "B") for r in recs):
+        raise Inconclusive("engine %s exited with %s: %s" % (exe, rc, err[-800:]))
+    return recs
+
+
+CLASS_CFG = dict(
+    rule="(i) the real RangeMap (range_map.rs included by path) driven through insert / insert_ranges / remove_ranges: exhaustively over a small universe (every base subset in maximal and split form x every second subset in both forms, every insert pair) and by random 1-8 operation sequences over the full code-point range with hostile end points (0, 0x7F, surrogate gap, char::MAX); after every operation sortedness, disjointness, no inverted piece and pointwise equality with a per-code-point fold of the operations are checked. (ii) random class expressions over sets, ranges, `_`, built-ins, `|`, `#` compiled through the real macro in three shapes (`E`, `E '!'`, `'?' > E`) and probed at every elementary-segment end point +-2. Non-trivial = remove operations whose removed range spans >= 2 pieces, equals a piece or touches a piece end point (counted by the monitor), plus distinct (class lexer, probe) pairs.",
+    nt="nt_C02",
+    parts=[("class", "base", 240, 3000, 20, dict(VP_THREADS=4), dict(VP_THREADS=4))],
+)
+
+
+def check_c11(root, prop, tier, seed, res):
+    exe = build_engine(root, "rangemap_mon")
+    recs = run_engine(root, exe, tier, seed)
+    S = next(r for r in recs if r.get("t") == "S")
+    for r in recs:
+        if r.get("t") == "V":
+            res.violations.append(r["v"])
+    # class expressions through the real macro
+    eng = run_generic(root, prop, tier, seed, res, cfg=CLASS_CFG, extra_props=("C02", "C01", "C04", "C07", "C09"))
+    for x in eng.compile_failures():
+        res.violations.append(x)
+    res.coverage["evaluations"] += S["operations"]
+    res.coverage["distinct_nontrivial"] += S["nontrivial"]
+    res.coverage["samples"] = (res.coverage.get("samples") or [])[:2] + S.get("samples", [])[:2]
+    res.extra["rangemap_monitor"] = {k: S[k] for k in S if k not in ("t", "samples")}
+    res.extra["exhaustive"] = False
+    res.extra["exhaustive_subspace"] = "all RangeMap operation pairs over universe {0..%d}" % (S["universe"] - 1)
+    if res.inconclusive and res.inconclusive[-1].startswith("fewer than 2"):
+        res.inconclusive.pop()
+
+
+def check_c18(root, prop, tier, seed, res):
+    exe = build_engine(root, "tablegen_mon")
+    recs = run_engine(root, exe, tier, seed)
+    S = next(r for r in recs if r.get("t") == "S")
+    for r in recs:
+        if r.get("t") == "V":
+            res.violations.append(r["v"])
+        elif r.get("t") == "H":
+            res.inconclusive.append("harness: closed form disagrees with brute force: %s" % json.dumps(r.get("msg"))[:300])
+    res.coverage["evaluations"] = S["predicates"]
+    res.coverage["distinct_nontrivial"] = S["nontrivial"]
+    res.coverage["rule"] = ("the real generate_char_fn_ranges (char_range_gen/src/main.rs included by path, hook H2) is called on every predicate defined by a subset of the boundary candidates %s (all subsets in thorough, subsets of size <= 3 in quick) x both polarities, plus the 20 real predicates; oracle: closed-form maximal scalar ranges (clipped around the surrogate gap), confirmed by brute force on a sample, plus well-formedness (sorted, disjoint, non-adjacent, scalar end points). Non-trivial = predicates that hold at 0, U+D7FF, U+E000 or char::MAX." % S["boundary_candidates"])
+    res.coverage["samples"] = S.get("samples", [])
+    res.coverage["exhaustive"] = bool(S.get("exhaustive"))
+    res.extra["tablegen_monitor"] = {k: S[k] for k in S if k not in ("t", "samples")}
+    res.extra["repo_fingerprint"] = repo_fingerprint()
+    res.assumptions.append("std char predicates / unicode-xid of " + toolchain())
+
+
+CHECKS["C11"] = check_c11
+CHECKS["C18"] = check_c18
+
+
+# --------------------------------------------------------------------------------------------
+# C13: built-ins, all scalar values
+
+def ranges_subset(obs, allowed):
+    """obs, allowed: lists of [a,b]. Returns first code point of obs not covered by allowed, or None."""
+    allowed = sorted(allowed)
+    for a, b in obs:
+        c = a
+        while c <= b:
+            hit = None
+            for x, y in allowed:
+                if x <= c <= y:
+                    hit = y
+                    break
+            if hit is None:
+                return c
+            c = hit + 1
+    return None
+
+
+def check_c13(root, prop, tier, seed, res):
+    import vbuiltin
+    from vcheck import CARGO_TOML
+    shapes = "ab" if tier == "quick" else "abcd"
+    eng = GenericEngine(root, prop, tier, seed)
+    eng.prepare()
+    src = vbuiltin.gen_source(shapes, vbuiltin.table_sizes())
+    name = "c13_%s_sweep" % tier[0]
+    with open(os.path.join(eng.work, "src", "bin", name + ".rs"), "w") as f:
+        f.write(src)
+    env = dict(eng.env)
+    t0 = time.time()
+    rc, out, err, to = run(["cargo", "build", "--offline", "--release", "--bin", name], cwd=eng.work, env=env, timeout=3600)
+    log("  build: rc=%s %.1fs" % (rc, time.time() - t0))
+    if rc != 0:
+        # a built-in lexer that does not compile: violation (the definition is trivially well-formed)
+        res.violations.append({"what": "a one-rule built-in lexer does not expand/compile: " + err[-1500:], "family": "builtin", "index": 0})
+        return
+    exe = os.path.join(env["CARGO_TARGET_DIR"], "release", name)
+    recs = run_engine(root, exe, tier, seed)
+    if os.environ.get("VP_C13_DUMP"):
+        with open(os.environ["VP_C13_DUMP"], "w") as f:
+            json.dump(recs, f)
+    known = [k for k in load_known(root) if k.get("property") == "C13" and k.get("status") == "open"]
+    known_by = {k["builtin"]: k for k in known}
+    pairs = 0
+    evals = 0
+    samples = []
+    per = {}
+    seen_known = {}
+    for r in recs:
+        if r.get("t") != "B":
+            continue
+        pairs += 1
+        evals += r["accepted"] + r["rejected"]
+        b, sh = r["builtin"], r["shape"]
+        per["%s/%s" % (b, sh)] = {"accepted": r["accepted"], "rejected": r["rejected"], "missing": r["missing_count"], "extra": r["extra_count"]}
+        if len(samples) < 3:
+            samples.append({"builtin": b, "shape": sh, "accepted": r["accepted"], "rejected": r["rejected"]})
+        if r["panics"]:
+            res.violations.append({"what": "$$%s shape %s: %d panics while lexing single characters" % (b, sh, r["panics"]), "family": "builtin", "index": pairs})
+        k = known_by.get(b)
+        for kind in ("missing", "extra"):
+            obs = r[kind]
+            if not obs:
+                continue
+            allowed = (k or {}).get(kind, [])
+            if r.get("adj") == "ascii_only":
+                pass
+            bad = ranges_subset(obs, allowed)
+            if bad is not None:
+                res.violations.append({
+                    "what": "$$%s (shape %s): U+%04X is %s although the Rust predicate says %s" % (
+                        b, sh, bad, "rejected" if kind == "missing" else "accepted", "true" if kind == "missing" else "false"),
+                    "family": "builtin", "index": pairs, "builtin": b, "shape": sh,
+                    "definition": {"a": "$$%s = t" % b, "b": "$$%s '!' = t" % b, "c": "class-algebra variant of $$%s" % b, "d": "'!' > $$%s = t" % b}[sh],
+                    "input_shown": "U+%04X" % bad, "deviating_ranges_%s" % kind: obs[:50],
+                })
+            else:
+                seen_known[b] = k
+    for b, k in sorted(seen_known.items()):
+        res.known.append((k, b))
+    res.coverage["evaluations"] = evals
+    res.coverage["distinct_nontrivial"] = pairs
+    res.coverage["exhaustive"] = True
+    res.coverage["rule"] = ("for each of the 20 built-in names and each generated membership-test shape (a: `$$B = t` per-range accept arms; b: `$$B '!' = t` guard chain or binary-search table; thorough adds c: the other lookup shape forced through class algebra, d: `'!' > $$B` right-context function) a one-rule lexer is expanded by the real macro and run on ALL 1,112,064 scalar values; oracle: the std / unicode-xid predicate. Non-trivial = (built-in, shape) pairs swept.")
+    res.coverage["samples"] = samples
+    res.extra["per_builtin_shape"] = per
+    res.extra["toolchain"] = toolchain()
+    res.extra["repo_fingerprint"] = repo_fingerprint()
+    res.assumptions.append("the oracle is the predicate of the toolchain that builds /repo: " + toolchain())
+    for p in (exe, exe + ".d"):
+        if os.path.exists(p):
+            os.remove(p)
+
+
+CHECKS["C13"] = check_c13
